@@ -132,7 +132,7 @@ theorem C12_burn_keeps_margin (g : Cfg) (M : Addr) (c c' : VSt) (d : Addr) (amou
     (h : burn g M c d amount = .ok (c', r)) :
     dm c' M - c'.supply * P = dm c M - c.supply * P := by
   obtain ⟨-, -, ht⟩ := burn_effect g M c c' d amount r h
-  obtain ⟨x, v, v2, v3, amt, hx, -, -, -, -, -, -, -, -, -, -, hdf, -, -, -, -, -, hs⟩ :=
+  obtain ⟨x, v, v2, amt, hx, -, -, -, -, -, -, hdf, -, -, -, -, hs, -, -⟩ :=
     transfer_effect g _ c' M d _ r (fun e => hne e.symm) ht
   have hm : dm c M = x.m := by unfold dm; rw [show c.del M = some x from hx]
   have hm' : dm c' M = x.m - (Dec.ofInt amount).m := by
@@ -174,66 +174,94 @@ theorem C12_no_empty_delegation_partial (accts : List Addr) (hn : accts.Nodup) (
     (frm to : Addr) (sh r : Dec) (hf : frm ∈ accts) (ht : to ∈ accts) (hne : frm ≠ to) (hwf : WF accts c)
     (hrate : SaneRate c) (hworth : WorthOneToken c sh) (hnone : ∀ a, NoEmptyAt c a)
     (h : transfer g c frm to sh = .ok (c', r)) : 0 < r.m ∧ ∀ a, NoEmptyAt c' a := by
-  obtain ⟨h1, h2, -, -⟩ := transfer_no_empty accts hn g c c' frm to sh r hf ht hne hwf hrate (Or.inr hworth) h
-  exact ⟨h1, fun a => h2 a (hnone a)⟩
+  obtain ⟨h1, -, -, h4⟩ := transfer_no_empty accts hn g c c' frm to sh r hf ht hne hwf hrate (Or.inr hworth) h
+  exact ⟨h4 hworth, fun a => h1 a (hnone a)⟩
 
 example : WorthOneToken exHolder (Dec.ofInt 2) := by
   intro v hv; simp only [exHolder, Option.some.injEq] at hv; subst hv; decide
 
-/-- **Full statement, proved for the repaired code** (`refuseZero`: a transfer whose unbonded amount is zero is
-    refused): every successful TransferDelegation — hence every mint and burn — credits a positive number of
-    shares and leaves no empty delegation. -/
-theorem C12_no_empty_delegation_fixed (accts : List Addr) (hn : accts.Nodup) (g : Cfg) (hg : g.refuseZero = true)
+/-- **Full statement, proved for the repaired code** (`skipZeroDelegate`: when the unbonded amount is zero nothing
+    is re-delegated and zero received shares are returned — the outcome the maintainers' own test
+    "zero shares received when transfer < 1 token" expects, minus the empty record): every successful
+    TransferDelegation — hence every mint and burn — leaves no empty delegation; either the recipient's record is
+    untouched and zero shares are reported, or a strictly positive number of shares is credited. -/
+theorem C12_no_empty_delegation_fixed (accts : List Addr) (hn : accts.Nodup) (g : Cfg) (hg : g.skipZeroDelegate = true)
     (c c' : VSt) (frm to : Addr) (sh r : Dec) (hf : frm ∈ accts) (ht : to ∈ accts) (hne : frm ≠ to)
     (hwf : WF accts c) (hrate : SaneRate c) (hnone : ∀ a, NoEmptyAt c a)
-    (h : transfer g c frm to sh = .ok (c', r)) : 0 < r.m ∧ ∀ a, NoEmptyAt c' a := by
-  obtain ⟨h1, h2, -, -⟩ := transfer_no_empty accts hn g c c' frm to sh r hf ht hne hwf hrate (Or.inl hg) h
-  exact ⟨h1, fun a => h2 a (hnone a)⟩
+    (h : transfer g c frm to sh = .ok (c', r)) :
+    (∀ a, NoEmptyAt c' a) ∧ ((c'.del to = c.del to ∧ r.m = 0) ∨ 0 < r.m) := by
+  obtain ⟨h1, -, h3, -⟩ := transfer_no_empty accts hn g c c' frm to sh r hf ht hne hwf hrate (Or.inl hg) h
+  refine ⟨fun a => h1 a (hnone a), ?_⟩
+  rcases h3 with h3 | h3
+  · exact Or.inl h3
+  · exact Or.inr h3.1
 
-/-- the repaired code refuses the witness of the counterexample and accepts a burn of two units -/
-example : (burn Cfg.fixed 0 exHolder 2 1).isErr = true := by decide
+/-- the repaired code on the witness of the counterexample: the unit is burnt, no record is stored for account 2;
+    a burn of two units credits shares -/
+example : (burn Cfg.fixed 0 exHolder 2 1).okAnd (fun p => decide (p.1.del 2 = none ∧ p.2.m = 0 ∧ p.1.supply = 9)) = true := by decide
 example : (burn Cfg.fixed 0 exHolder 1 2).okAnd (fun p => decide (NoEmptyAt p.1 1 ∧ 0 < p.2.m)) = true := by decide
 
 /-! ## 3. Bonded tokens, status and unbonding entries are untouched -/
 
 /-- A successful mint or burn leaves the validator in place with the same tokens (hence the same bonded tokens and
     voting power), the same status, jailed flag, minimum self delegation and operator: the stake never leaves the
-    validator, and the self-delegation guard makes the jailing branch of `Unbond` unreachable. -/
-theorem C12_bonded_tokens_unchanged (g : Cfg) (M : Addr) (c c' : VSt) (d : Addr) (amount : Int) (hne : d ≠ M) :
+    validator, and the self-delegation guard makes the jailing branch of `Unbond` unreachable.  (`hpos` is needed
+    only for the repaired code, whose zero-amount branch does not re-delegate: a validator without tokens that loses
+    its last share is removed by `Unbond`, as in x/staking's own Undelegate.) -/
+theorem C12_bonded_tokens_unchanged (g : Cfg) (M : Addr) (c c' : VSt) (d : Addr) (amount : Int) (hne : d ≠ M)
+    (hpos : g.skipZeroDelegate = false ∨ ∀ v, c.val = some v → 0 < v.tokens) :
     (∀ der, mint g M c d true amount = .ok (c', der) →
       ∃ v v', c.val = some v ∧ c'.val = some v' ∧ v'.tokens = v.tokens ∧ v'.status = v.status ∧
         v'.jailed = v.jailed ∧ v'.minSelf = v.minSelf ∧ v'.oper = v.oper) ∧
     (∀ r, burn g M c d amount = .ok (c', r) →
       ∃ v v', c.val = some v ∧ c'.val = some v' ∧ v'.tokens = v.tokens ∧ v'.status = v.status ∧
         v'.jailed = v.jailed ∧ v'.minSelf = v.minSelf ∧ v'.oper = v.oper) := by
+  -- common part: the validator record after a transfer
+  have key : ∀ (c0 c2 : VSt) (frm to : Addr) (sh r : Dec), frm ≠ to → c0.val = c.val →
+      transfer g c0 frm to sh = .ok (c2, r) →
+      ∃ v v', c.val = some v ∧ c2.val = some v' ∧ v'.tokens = v.tokens ∧ v'.status = v.status ∧
+        v'.jailed = v.jailed ∧ v'.minSelf = v.minSelf ∧ v'.oper = v.oper := by
+    intro c0 c2 frm to sh r hft hval ht
+    obtain ⟨x, v, v2, amt, -, hv, -, -, -, -, hrm, -, -, -, -, -, -, -, hcase⟩ := transfer_effect g c0 c2 frm to sh r hft ht
+    rw [hval] at hv
+    obtain ⟨a1, a2, a3, a4, a5, a6⟩ := removeDelShares_spec v v2 sh amt hrm
+    rcases hcase with ⟨hs, ha0, -, -, hv2⟩ | ⟨-, v3, -, hadd, hv3, -⟩
+    · have hT : 0 < v.tokens := by
+        rcases hpos with hp | hp
+        · rw [hs] at hp; cases hp
+        · exact hp v hv
+      rcases a6 with ⟨-, e1, -⟩ | ⟨hne2, -, -, e2, -⟩
+      · omega
+      · refine ⟨v, v2, hv, by rw [hv2, if_neg (fun hh => hne2 hh.1)], by omega, a2, a4, a3, a5⟩
+    · obtain ⟨t1, -, t3, t4, t5, t6⟩ := xfer_val v v2 v3 sh r amt hrm hadd
+      exact ⟨v, v3, hv, hv3, t1, t3, t4, t5, t6⟩
   constructor
   · intro der h
     obtain ⟨-, shares, c1, r, -, ht, -, e1, -⟩ := mint_effect g M c c' d amount der h
-    obtain ⟨x, v, v2, v3, amt, -, hv, -, -, -, -, hrm, -, -, hadd, hv3, -⟩ := transfer_effect g c c1 d M shares r hne ht
-    obtain ⟨t1, -, t3, t4, t5, t6⟩ := xfer_val v v2 v3 shares r amt hrm hadd
-    exact ⟨v, v3, hv, by rw [e1]; exact hv3, t1, t3, t4, t5, t6⟩
+    obtain ⟨v, v', h1, h2, h3⟩ := key c c1 d M shares r hne rfl ht
+    exact ⟨v, v', h1, by rw [e1]; exact h2, h3⟩
   · intro r h
     obtain ⟨-, -, ht⟩ := burn_effect g M c c' d amount r h
-    obtain ⟨x, v, v2, v3, amt, -, hv, -, -, -, -, hrm, -, -, hadd, hv3, -⟩ :=
-      transfer_effect g _ c' M d _ r (fun e => hne e.symm) ht
-    obtain ⟨t1, -, t3, t4, t5, t6⟩ := xfer_val v v2 v3 _ r amt hrm hadd
-    exact ⟨v, v3, hv, hv3, t1, t3, t4, t5, t6⟩
+    exact key { c with bal := updI c.bal d (c.bal d - amount), supply := c.supply - amount } c' M d _ r
+      (fun e => hne e.symm) rfl ht
 
 /-- A successful mint or burn creates no unbonding-delegation entry and no redelegation record for anybody, and the
-    recipient's delegation is credited in the same step (there is no unbonding period). -/
+    recipient's delegation is credited with the received shares in the same step (there is no unbonding period). -/
 theorem C12_no_unbonding_entry (g : Cfg) (M : Addr) (c c' : VSt) (d : Addr) (amount : Int) (hne : d ≠ M) :
     (∀ der, mint g M c d true amount = .ok (c', der) →
-      c'.ubd = c.ubd ∧ c'.redel = c.redel ∧ ∃ r : Dec, c'.del M = some ⟨dm c M + r.m⟩) ∧
+      c'.ubd = c.ubd ∧ c'.redel = c.redel ∧ ∃ r : Dec, dm c' M = dm c M + r.m) ∧
     (∀ r, burn g M c d amount = .ok (c', r) →
-      c'.ubd = c.ubd ∧ c'.redel = c.redel ∧ c'.del d = some ⟨dm c d + r.m⟩) := by
+      c'.ubd = c.ubd ∧ c'.redel = c.redel ∧ dm c' d = dm c d + r.m) := by
   constructor
   · intro der h
     obtain ⟨-, shares, c1, r, -, ht, -, -, e2, e3, e4, -⟩ := mint_effect g M c c' d amount der h
-    obtain ⟨x, v, v2, v3, amt, -, -, -, -, -, -, -, -, -, -, -, -, hdt, -, f1, f2, -⟩ := transfer_effect g c c1 d M shares r hne ht
-    exact ⟨by rw [e4, f2], by rw [e3, f1], r, by rw [e2]; exact hdt⟩
+    obtain ⟨x, v, v2, amt, -, -, -, -, -, -, -, -, -, f1, f2, -, -, hdt, -⟩ := transfer_effect g c c1 d M shares r hne ht
+    refine ⟨by rw [e4, f2], by rw [e3, f1], r, ?_⟩
+    have : dm c' M = dm c1 M := by unfold dm; rw [e2]
+    rw [this]; exact hdt
   · intro r h
     obtain ⟨-, -, ht⟩ := burn_effect g M c c' d amount r h
-    obtain ⟨x, v, v2, v3, amt, -, -, -, -, -, -, -, -, -, -, -, -, hdt, -, f1, f2, -⟩ :=
+    obtain ⟨x, v, v2, amt, -, -, -, -, -, -, -, -, -, f1, f2, -, -, hdt, -⟩ :=
       transfer_effect g _ c' M d _ r (fun e => hne e.symm) ht
     exact ⟨f2, f1, hdt⟩
 
@@ -310,7 +338,13 @@ theorem C12_value_within_two_units_partial (g : Cfg) (M : Addr) (c c' : VSt) (d 
     (hne : d ≠ M) (hgood : Good M c) (h : mint g M c d true amount = .ok (c', der)) :
     stakeNum c' d = stakeNum c d ∧ sharesOf c' = sharesOf c ∧ ValueWithinTwo c c' d := by
   obtain ⟨hg', hd0, -, hdd, -, hbal⟩ := mint_good g M c c' d amount der hne hgood h
-  obtain ⟨v, v', hv, hv', ht, -⟩ := (C12_bonded_tokens_unchanged g M c c' d amount hne).1 der h
+  have hpos : g.skipZeroDelegate = false ∨ ∀ v, c.val = some v → 0 < v.tokens := by
+    right
+    obtain ⟨-, shares, -, -, hval, -⟩ := mint_effect g M c c' d amount der h
+    obtain ⟨v0, hv0, hne0⟩ := validate_tokens_ne c d amount shares hval
+    intro v hv; rw [hv0] at hv; cases hv
+    have := (hgood.1.2 v0 hv0).1; omega
+  obtain ⟨v, v', hv, hv', ht, -⟩ := (C12_bonded_tokens_unchanged g M c c' d amount hne hpos).1 der h
   have hs : v'.shares.m = v.shares.m := by
     rw [(hg'.1.2 v' hv').2, (hgood.1.2 v hv).2, ht]
   have e1 : stakeNum c' d = stakeNum c d := by
@@ -334,10 +368,11 @@ theorem C12_value_within_two_units_partial (g : Cfg) (M : Addr) (c c' : VSt) (d 
     is still worth at most one token. -/
 theorem C12_value_within_two_units_burn (accts : List Addr) (hn : accts.Nodup) (g : Cfg) (M : Addr)
     (c c' : VSt) (d : Addr) (amount : Int) (r : Dec) (hM : M ∈ accts) (hd : d ∈ accts) (hne : d ≠ M)
-    (hwf : WF accts c) (hrate : SaneRate c) (hH : dm c d + c.bal d * P ≤ sharesOf c)
+    (hwf : WF accts c) (hrate : SaneRate c) (hTpos : ∀ v, c.val = some v → 0 < v.tokens)
+    (hH : dm c d + c.bal d * P ≤ sharesOf c)
     (hpost : ∀ v', c'.val = some v' → v'.tokens ≤ v'.shares.m)
     (h : burn g M c d amount = .ok (c', r)) : ValueWithinTwo c c' d :=
-  burn_value accts hn g M c c' d amount r hM hd hne hwf hrate hH hpost h
+  burn_value accts hn g M c c' d amount r hM hd hne hwf hrate hTpos hH hpost h
 
 /-- **Full statement, proved for the repaired code** (`mintReceived`): a mint changes the value of the user's stake
     by at most two base units — less than one token is left behind by the truncation in `RemoveDelShares` and
@@ -346,10 +381,11 @@ theorem C12_value_within_two_units_burn (accts : List Addr) (hn : accts.Nodup) (
     second unit is one share's worth of tokens. -/
 theorem C12_value_within_two_units_fixed (accts : List Addr) (hn : accts.Nodup) (g : Cfg) (hg : g.mintReceived = true)
     (M : Addr) (c c' : VSt) (d : Addr) (amount der : Int) (hM : M ∈ accts) (hd : d ∈ accts) (hne : d ≠ M)
-    (hwf : WF accts c) (hrate : SaneRate c) (hbal : 0 ≤ c.bal d) (hH : dm c d + c.bal d * P ≤ sharesOf c)
+    (hwf : WF accts c) (hrate : SaneRate c) (hTpos : ∀ v, c.val = some v → 0 < v.tokens)
+    (hbal : 0 ≤ c.bal d) (hH : dm c d + c.bal d * P ≤ sharesOf c)
     (hpost : ∀ v', c'.val = some v' → v'.tokens * P ≤ v'.shares.m)
     (h : mint g M c d true amount = .ok (c', der)) : ValueWithinTwo c c' d :=
-  mint_value_fixed accts hn g hg M c c' d amount der hM hd hne hwf hrate hbal hH hpost h
+  mint_value_fixed accts hn g hg M c c' d amount der hM hd hne hwf hrate hTpos hbal hH hpost h
 
 /-- the repaired code on the witness of the counterexample -/
 example : (mint Cfg.fixed 0 exWhale 1 true 606).okAnd (fun p => decide (ValueWithinTwo exWhale p.1 1 ∧ p.2 = 648)) = true := by decide
